@@ -185,7 +185,7 @@ fn run_to_path(kind: CoordKind, style: PathStyle, pts: &[(i32, i32)], flags: &[u
 }
 
 fn part_to_path(cfg: &Config, s: &mut Session, rng: &mut Rng) {
-    let n = if cfg.thorough() { 3_000_000 } else { 120_000 };
+    let n = if cfg.thorough() { 3_000_000 } else { 300_000 };
     let bvals = boundary_i32();
     for it in 0..n {
         let kind = *rng.pick(&[CoordKind::F26, CoordKind::Fx, CoordKind::I32, CoordKind::F32]);
@@ -296,6 +296,7 @@ fn part_to_path(cfg: &Config, s: &mut Session, rng: &mut Rng) {
         let input = req.clone();
         s.case("to_path", req, resp.clone());
         s.count(if ok { "tp:ok" } else { "tp:err" });
+        s.oracle("to_path.no_panic", resp != "trap", || input.clone(), || "to_path panicked".to_string());
         if let Some(e) = resp.rsplit(' ').next() {
             if e.starts_with("err:") {
                 let k: Vec<&str> = e.split(':').collect();
@@ -407,7 +408,7 @@ fn expected_size(c: &OutlineCounts, emb: bool) -> usize {
 }
 
 fn part_carve(cfg: &Config, s: &mut Session, rng: &mut Rng) {
-    let n = if cfg.thorough() { 2_000_000 } else { 80_000 };
+    let n = if cfg.thorough() { 2_000_000 } else { 200_000 };
     for _ in 0..n {
         let small = |rng: &mut Rng| -> usize {
             match rng.below(8) {
@@ -683,7 +684,7 @@ fn part_fonts(cfg: &Config, s: &mut Session, rng: &mut Rng) {
     let fonts = load_fonts();
     let refs: Vec<FontRef> = fonts.iter().map(|f| FontRef::new(&f.data).unwrap()).collect();
     let collections: Vec<OutlineGlyphCollection> = refs.iter().map(|f| f.outline_glyphs()).collect();
-    let configs_per_font = if cfg.thorough() { 40 } else { 5 };
+    let configs_per_font = if cfg.thorough() { 40 } else { 8 };
     for (fi, font) in refs.iter().enumerate() {
         let n_glyphs = font.maxp().map(|m| m.num_glyphs() as u32).unwrap_or(0);
         let axis_count = font.axes().len();
@@ -707,7 +708,7 @@ fn font_battery(
     configs_per_font: usize,
     synth: bool,
 ) {
-    let cap = if cfg.thorough() { 600 } else { 90 };
+    let cap = if cfg.thorough() { 600 } else { 150 };
     let tag = if synth { "synth" } else { "fonts" };
     {
         if outlines.get(GlyphId::new(0)).is_none() && n_glyphs > 0 && outlines.iter().next().is_none() {
@@ -1114,7 +1115,7 @@ fn expand_tree(f: &SFont, gid: usize, depth: usize, out: &mut Vec<i64>, budget: 
 }
 
 fn part_counts(cfg: &Config, s: &mut Session, rng: &mut Rng) {
-    let n_fonts = if cfg.thorough() { 10000 } else { 400 };
+    let n_fonts = if cfg.thorough() { 10000 } else { 1000 };
     for fi in 0..n_fonts {
         let n = 2 + rng.below(10) as usize;
         let mut glyphs: Vec<SGlyph> = vec![SGlyph::Empty];
@@ -1344,9 +1345,17 @@ fn state_font(rng: &mut Rng, sig: u64) -> SFont {
     g8.push(SCFS);
     pushw(&mut g8, &[1]);
     g8.push(SZPS);
+    // own writes …
     pushw(&mut g8, &[2, 1]);
     g8.push(RS);
     pushw(&mut g8, &[1]);
+    g8.push(RCVT);
+    g8.push(ADD);
+    g8.push(SCFS);
+    // … and cells this glyph did not write, read after the copy-on-write was triggered
+    pushw(&mut g8, &[3, 0]);
+    g8.push(RS);
+    pushw(&mut g8, &[2]);
     g8.push(RCVT);
     g8.push(ADD);
     g8.push(SCFS);
@@ -1379,7 +1388,7 @@ fn state_font(rng: &mut Rng, sig: u64) -> SFont {
 }
 
 fn part_state_fonts(cfg: &Config, s: &mut Session, rng: &mut Rng) {
-    let n_fonts = if cfg.thorough() { 80 } else { 12 };
+    let n_fonts = if cfg.thorough() { 80 } else { 20 };
     let mut datas: Vec<(u64, Vec<u8>)> = vec![];
     // the all-writing and the nothing-writing font are always present
     let mut sigs: Vec<u64> = vec![0xFFFFF, 0, 0x3FFFF & 0x2AAAA, 0x15555];
@@ -1414,7 +1423,7 @@ fn part_state_fonts(cfg: &Config, s: &mut Session, rng: &mut Rng) {
     }
     for (i, (sig, _)) in datas.iter().enumerate() {
         let axes = if sig >> 19 & 1 == 1 { 2 } else { 0 };
-        font_battery(cfg, s, rng, &format!("synth-state-{sig:05x}"), &pool[i], 11, axes, true, &pool, if cfg.thorough() { 24 } else { 6 }, true);
+        font_battery(cfg, s, rng, &format!("synth-state-{sig:05x}"), &pool[i], 11, axes, true, &pool, if cfg.thorough() { 24 } else { 8 }, true);
     }
 }
 
